@@ -115,6 +115,13 @@ def family(quick):
                                  {"a": "openUp", "g": "P1", "obj": "U1", "qos": "reliable", "ctxMs": 1500},
                                  {"a": "await", "ev": "BRecvReq", "match": {"kind": "UpstreamOpenRequest"}, "ms": 1000},
                                  {"a": "closeConn", "g": "T", "ctxMs": CTX, "wait": True}, {"a": "join", "obj": "P1"}, {"a": "quiesce", "ms": 50}]})
+    # (7) a peer that is alive but has stopped reading: the connection Close must still return within its context
+    #     (a Read already in progress on the broker side may still consume one message: then Close simply succeeds).
+    #     NOT claimed: request/chunk writes to a peer that does not read -- transport writes are not context-aware (DESIGN section 7).
+    for k in (1, 2):
+        scs.append({"id": "C08/noread/closeConn/%d" % k, "kind": "iscp", "conn": {"pingMs": [5000, 1000]},
+                    "steps": base + [{"a": "sendMeta", "g": "P1", "tag": 9, "ctxMs": 1000, "wait": True}] * (k - 1)
+                    + [{"a": "stopReading"}, {"a": "sleep", "ms": 30}, {"a": "closeConn", "g": "T", "ctxMs": CTX, "wait": True}, {"a": "quiesce", "ms": 50}]})
     return scs
 
 
